@@ -183,6 +183,8 @@ def validate(pids, root="/repo", jobs=16, verbose=True):
         base[pid] = sorted(ref)
         base_full[pid] = (rc, ref, und)
     results = []
+    # the variants read the memoised normal forms of the files they leave alone but do not add their own (hundreds of one-off entries)
+    os.environ["COLA_VERIF_NFCACHE_RO"] = "1"
     with cf.ProcessPoolExecutor(max_workers=jobs) as ex:
         futs = [ex.submit(run_mutant, (m, root, base)) for m in mutants]
         futs += [ex.submit(run_roundtrip, (pid, root, base_full[pid])) for pid in pids]
